@@ -262,10 +262,9 @@ class WrappedField:
     def is_enum(self) -> bool:
         if self.is_container:
             return False
-        if self.is_optional:
-            return issubclass(self.contained_type, enum.Enum)
-
-        return issubclass(self.resolved_type, enum.Enum)
+        type_ = self.contained_type if self.is_optional else self.resolved_type
+        # an annotation that is no class (Dict[str, int], a callable, a type variable, ...) is no enum
+        return isinstance(type_, type) and issubclass(type_, enum.Enum)
 
     @cached_property
     def is_one_to_one_relationship(self) -> bool:
